@@ -3,6 +3,7 @@ package main
 import (
 	"encoding/json"
 	"fmt"
+	"os"
 	"strings"
 	"time"
 
@@ -321,8 +322,12 @@ func c07Configs(thorough bool) (cfgs []c07Cfg, bounds []int) {
 			bounds = append(bounds, bb)
 			// visibility on every instance: two executions that start after the update returned
 			if thorough || ((m == "sort" || m == "conc" || m == "nsortmc" || m == "dag") && k != "incr") || (m == "specified" && k == "incr") {
-				cfgs = append(cfgs, c07Cfg{Updates: []string{k}, Execs: []string{m, m}, After: true})
-				bounds = append(bounds, bb-1)
+				second := m
+				if !seqModel {
+					second = "sort" // one goroutine-spawning execution overlapping a sequential one keeps the space small
+				}
+				cfgs = append(cfgs, c07Cfg{Updates: []string{k}, Execs: []string{m, second}, After: true})
+				bounds = append(bounds, 1)
 			}
 		}
 		// two updates in sequence against one executor
@@ -352,20 +357,18 @@ func init() {
 		BudgetQuick: 170 * time.Second,
 		BudgetThor:  30 * time.Minute,
 		Kind:        "schedules",
-		Rule: "pool (1,2), version-tagged rule sets whose versions differ in tags and membership; updater thread performing 1-2 updates from {full, incremental, removal} against 1-2 executions in each of 10 pool execution paths {sort, concurrent, mix, inverse-mix, N-sort-M-conc, N-conc-M-sort, N-conc-M-conc, DAG (2 layers), selected, configured-model}, every schedule with <=2 (3) preemptions for sequential models and <=1 (2) for goroutine-spawning ones; an update triggered from inside a running rule; executions started after the update returned (both instances). " +
+		Rule: "pool (1,2), version-tagged rule sets whose versions differ in tags and membership; updater thread performing 1-2 updates from {full, incremental, removal} against 1-2 executions in each of 10 pool execution paths {sort, concurrent, mix, inverse-mix, N-sort-M-conc, N-conc-M-sort, N-conc-M-conc, DAG (2 layers), selected, configured-model}, every schedule with <=2 (thorough 3) deviations from the default scheduler (delay bounding: a preemption, or running another thread than the lowest-numbered enabled one when the running thread blocks or ends); an update triggered from inside a running rule; executions started after the update returned (both instances). " +
 			"Oracle (regular-register history check on the global call/return log): each execution's result map equals the reference result of exactly ONE snapshot, that snapshot is not older than the last update that returned before the execution was called and not newer than the last update called before it returned; no panic, no deadlock",
 		Assume: []string{"sequentially consistent memory", "nothing is demanded about the relative order of two overlapping executions"},
 		Run: func(c *hx.Ctx) {
 			cfgs, bounds := c07Configs(c.Thorough())
 			for i, cfg := range cfgs {
-				if !c.Mine(i) {
-					continue
-				}
 				if c.Expired() {
 					c.Res.Capped = append(c.Res.Capped, "time budget before all configurations")
 					break
 				}
-				hx.Explore("C07", c07Scenario(cfg), hx.ExploreCfg{Bound: envBound(bounds[i]), Prune: true, Deadline: c.Deadline}, c.Res)
+				cfg := cfg
+				exploreShared(c, "C07", i, func() *hx.Scenario { return c07Scenario(cfg) }, hx.ExploreCfg{Bound: envBound(delayBound(c, bounds[i])), Delay: os.Getenv("HX_PREEMPT") == "", Prune: true, Deadline: c.Deadline})
 			}
 		},
 		Rebuild: func(v *hx.Violation) *hx.Scenario {
